@@ -87,6 +87,11 @@ CHECKS = {
          "Every history of <=3 (quick, 16276 per builder) / <=4 (thorough, 406901 per builder) add attempts over 25 letters (bundle shape: one spend, two spends sharing its puzzle, 40 kB solution, undecodable reveal, batch of two; declared cost: truthful, landing exactly on the block limit (computed by a dry run), that+1 (late rejection -> undo), limit+1 (early rejection), 0) followed by finalize is executed on a fresh BlockBuilder and a fresh InternedBlockBuilder: no panic; the finalized generator decodes (back-reference parser + harness) to exactly the multiset of spends of the accepted attempts; the signature is the harness's aggregate of exactly their signatures; cost <= max; with truthful costs the returned cost equals what run_block_generator2 charges for the generator; cost() before finalize >= final cost; and the history with the rejected attempts deleted yields byte-identical generator, signature and cost.",
          "trusts: run_spendbundle for the truthful declared cost, clvmr's back-reference parser for decoding, run_block_generator2 as the consensus cost; known finding: cost() of a builder with no accepted add underestimates the empty block",
          "DESIGN.md#c10"),
+ "C05": ("E", "exploration",
+         "bounded-exhaustive enumeration of signed base cases and single-point tamperings through every verification path, with the harness's own rule table and signer as oracle",
+         "Every base case (8 AGG_SIG opcodes x 23 coin amounts at every minimal-encoding length boundary x message lengths, plus a fixed second pair) is signed by the harness over its own table of what each opcode appends (parent / puzzle hash / minimal amount / coin id + the opcode's domain constant) and must be accepted by parse_spends (block and mempool visitor; no, cold, warm and foreign-warm BlsCache), run_block_generator2 and validate_clvm_and_signature; the (key, message) pairs reported by run_spendbundle and the text from make_aggsig_final_message must equal the table. Then 17 single-point tamperings per case (other signature, identity signature, message byte, key swap, amount neighbours, parent byte, puzzle hash, own / foreign domain constant altered in the constants, pair dropped / duplicated, infinity and off-curve key, neighbouring opcode) must be rejected on every path exactly when they change the signed multiset, and accepted otherwise; AGG_SIG_UNSAFE messages ending in any of the 7 constants are rejected although correctly signed (6 message shapes each). Thorough adds more message lengths and all 64 ordered opcode pairs over two spends.",
+         "trusts: chia_bls::sign/aggregate as the signer (C15/C16), harness codec and SHA-256; forgeries that are not single-point edits are a cryptographic claim outside this check",
+         "DESIGN.md#c05"),
 }
 
 PENDING_REASON = "check not built yet in this round (planned: see DESIGN.md section for this property); not claimed until it runs"
